@@ -92,3 +92,10 @@ pub open spec fn cp_inv(es: EnforcementState) -> bool {
     || (es.next_counterparty_revoke_num + 1 <= es.next_counterparty_commit_num
         && es.next_counterparty_commit_num <= es.next_counterparty_revoke_num + 2)
 }
+
+// assumption on chain data: block heights stay far below 2^32 (height + u16 delay cannot wrap)
+pub open spec fn height_sane(cstate: ChainState) -> bool { cstate.current_height <= 0x7fff_ffff }
+// assumption: HTLC lists are bounded by memory (no usize overflow when adding two vector lengths)
+pub open spec fn htlc_lens_sane(info: CommitmentInfo2) -> bool {
+    info.offered_htlcs@.len() <= 0xffff_ffff && info.received_htlcs@.len() <= 0xffff_ffff
+}
